@@ -98,6 +98,19 @@ def run(ctx, canary=False):
         path = rets[-1]["path"] if rets else "none"
         paths[solver + ":" + path] = paths.get(solver + ":" + path, 0) + 1
         bad = E.coherence_problems(model)
+        if not bad and float(model.total) >= 1:
+            # read-only uses (record generation with both methods and two row counts, bulk queries) leave the model the coherent
+            # distribution it was
+            try:
+                import contextlib, io
+                with contextlib.redirect_stdout(io.StringIO()), np.errstate(all="ignore"):
+                    np.random.seed(5)
+                    model.synthetic_data(rows=3, method="round")
+                    model.synthetic_data(method="round")
+                    model.synthetic_data(rows=5, method="sample")
+                bad = ["after generating synthetic records from it: " + b for b in E.coherence_problems(model)]
+            except Exception as ex:
+                bad = []      # record generation itself is C11's subject
         if bad:
             mag = max([float(np.max(np.abs(np.where(np.isfinite(model.potentials[cl].values), model.potentials[cl].values, 0.0))))
                        for cl in model.cliques] + [0.0])
